@@ -484,6 +484,11 @@ func (e *friEnv[E, P, PP, OP]) openings(pi int, pc polyCase, pp *PP, other []*bi
 	positions := []uint64{0, 1, N/2 - 1, N / 2, N - 1, uint64(e.rng.Intn(int(N))), uint64(e.rng.Intn(int(N)))}
 	if pi > 0 {
 		positions = positions[4:]
+	} else if e.c.Thorough() && N <= 64 {
+		positions = positions[:0]
+		for q := uint64(0); q < N; q++ {
+			positions = append(positions, q) // every point of the domain
+		}
 	}
 	seen := map[uint64]bool{}
 	first := true
@@ -550,6 +555,31 @@ func (e *friEnv[E, P, PP, OP]) openings(pi int, pc polyCase, pp *PP, other []*bi
 			f := cloneOf(&op)
 			rfield(reflect.ValueOf(f).Elem(), "numLeaves").SetUint(nl)
 			e.judgeOpening("targeted:numLeaves-changed", pos, f, pp, true, func() string { return fmt.Sprintf("numLeaves %d instead of %d", nl, N) })
+		}
+		// the same root opened as a tree of N/2 leaves: the "leaf" at sorted index s is the pair of leaf hashes
+		// (2s, 2s+1) of the real tree, so one commitment opens the same position to two different values
+		if s := sortedIndex(int(pos), int(N)); pos < N && s < int(N)/2 && len(so.Set) >= 2 {
+			h := e.spec.newH()
+			ev := e.spec.evalDomain(pc.p)
+			srt := toSorted(ev)
+			leaves := make([][]byte, len(srt))
+			for j, v := range srt {
+				leaves[j] = e.spec.enc(v)
+			}
+			tr := buildTree(h, leaves)
+			node := append(append([]byte(nil), tr.levels[0][2*s]...), tr.levels[0][2*s+1]...)
+			set := [][]byte{node}
+			idx := s
+			for l := 1; l < len(tr.levels)-1; l++ {
+				set = append(set, tr.levels[l][idx^1])
+				idx >>= 1
+			}
+			o := sopen{Root: tr.root(), Set: set, NumLeaves: N / 2, Index: uint64(s), Claimed: e.spec.dec(node)}
+			if fs := e.spec.verifyOpening(pos, o, e.toSpec(pp)); e.expect("inner-node-as-leaf", fs, []string{"numleaves", "merkle"}, nil) && o.Claimed.Cmp(so.Claimed) != 0 {
+				e.judgeOpening("targeted:inner-node-opened-as-leaf", pos, e.openFromSpec(o), pp, true, func() string {
+					return fmt.Sprintf("same root, numLeaves=N/2, leaf = H(leaf %d)||H(leaf %d) of the committed tree, claimed value = that string mod r (the honest opening of the same position claims %s)", 2*s, 2*s+1, so.Claimed.Text(16))
+				})
+			}
 		}
 		c.Class(fmt.Sprintf("%s/opening-forged/%s", e.cls, posClass(pos, N)))
 		// untargeted substitutions of every field of the opening proof
@@ -660,6 +690,7 @@ func (e *friEnv[E, P, PP, OP]) targeted(pc polyCase) {
 			return
 		}
 		noteEffect(ek, true)
+		c.SampleOnce("fri/"+originKey(kind), map[string]any{"curve": e.name, "hash": e.hname, "size": e.size, "forgery": what, "specification checks violated": fails.String()})
 		e.judge("targeted:"+kind, e.fromSpec(sp), true, func() string { return what })
 		c.Class(e.cls + "/targeted/" + originKey(kind))
 	}
@@ -809,6 +840,23 @@ func (e *friEnv[E, P, PP, OP]) fibreForgery(t int, try func(kind string, sp spro
 		}
 		h := f.newH()
 		in[1].Set[0] = f.enc(rp)
+		step := "first"
+		if t == f.k-1 {
+			step = "last"
+		} else if t > 0 {
+			step = "middle"
+		}
+		{
+			// same leaf, but [t][1].MerkleRoot left at the committed root: only the Merkle opening of [t][1] fails
+			keep := sround{Inter: make([][2]mproof, len(sr.Inter)), Eval: sr.Eval}
+			for i := range sr.Inter {
+				for j := 0; j < 2; j++ {
+					keep.Inter[i][j] = mproof{Root: sr.Inter[i][j].Root, Set: cloneSet(sr.Inter[i][j].Set), NumLeaves: sr.Inter[i][j].NumLeaves}
+				}
+			}
+			try(fmt.Sprintf("second-fibre-leaf-solved-from-the-folding-equation-path-unchanged/%s-step@%d", step, t), sproof{Rounds: []sround{keep}}, []string{"merkle"}, nil,
+				fmt.Sprintf("as the unrelated-tree forgery at step %d but MerkleRoot untouched: leaf [%d][1] = %s has no valid path", t, t, rp.Text(16)))
+		}
 		full := make([][]byte, len(in[c].Set))
 		copy(full, in[c].Set)
 		if c == 0 {
@@ -820,12 +868,6 @@ func (e *friEnv[E, P, PP, OP]) fibreForgery(t int, try func(kind string, sp spro
 		par := "partial-opening"
 		if c == 1 {
 			par = "full-opening"
-		}
-		step := "first"
-		if t == f.k-1 {
-			step = "last"
-		} else if t > 0 {
-			step = "middle"
 		}
 		try(fmt.Sprintf("second-fibre-opening-from-unrelated-tree/%s-step/%s@%d", step, par, t), sproof{Rounds: []sround{sr}}, []string{"root-eq"}, nil,
 			fmt.Sprintf("step 0 commits to uniform values (not close to any low-degree polynomial); step %d does not fold into what follows; leaf [%d][1] replaced by %s and [%d][1].MerkleRoot by the root of that path", t, t, rp.Text(16), t))
